@@ -51,11 +51,16 @@ Heads == { [k |-> "sym", v |-> N_a], [k |-> "sym", v |-> N_t], [k |-> "sym", v |
 PrefixSets == << <<>>, <<RH>>, <<S_HEAD, RT>>, <<N_s>>, <<RH \o <<100,47>>>> >>
 \*               none  refs/heads/  HEAD+refs/tags/  refs/heads/s  refs/heads/d/
 
-VARIABLES sel, head
-vars == <<sel, head>>
-Init == /\ sel \in {s \in SUBSET (1..Len(Alphabet)) : Cardinality(s) <= MaxRefs}
-        /\ head \in Heads
-Next == UNCHANGED vars
+VARIABLES sel, head, done
+vars == <<sel, head, done>>
+Init == sel = {} /\ head = [k |-> "oid", v |-> C2] /\ done = 0
+\* two steps choose the server (split so that TLC's workers share the enumeration)
+Choose1 == /\ done = 0 /\ done' = 1
+           /\ sel' \in {s \in SUBSET (1..3) : Cardinality(s) <= MaxRefs}
+           /\ head' \in Heads
+Choose2 == /\ done = 1 /\ done' = 2 /\ UNCHANGED head
+           /\ \E s \in SUBSET (4..Len(Alphabet)) : Cardinality(s) + Cardinality(sel) <= MaxRefs /\ sel' = sel \cup s
+Next == Choose1 \/ Choose2
 Spec == Init /\ [][Next]_vars
 
 RECURSIVE Pick(_)
@@ -70,25 +75,35 @@ ForEachRef(srv) ==
      LET r == ResolveRef(srv, names[i]) IN
      [name |-> names[i], oid |-> r.oid, sym |-> IF IsSymRef(srv, names[i]) THEN r.name ELSE None]]
 
-\* design-level statements about the specification itself
-InvRoundTripV0 == LET s == Server IN ReadV0(AdvertV0(s)) = ExpectedV0(s)
-InvNamesDistinct == LET e == ExpectedV0(Server) IN Cardinality({e[i].name : i \in 1..Len(e)}) = Len(e)
-\* a v2 listing without prefixes names exactly the v0 references, plus possibly an unborn HEAD
-InvV2CoversV0 ==
-  LET s == Server
-      a == ExpectedV0(s)
-      b == ExpectedV2(s, <<>>, TRUE)
-  IN {a[i].name : i \in 1..Len(a)} = {b[i].name : i \in 1..Len(b)} \ {b[i].name : i \in {j \in 1..Len(b) : b[j].k = "Unborn"}}
-\* prefixes only ever remove lines
-InvPrefixFilters ==
-  LET s == Server
-      all == SeqSet(ExpectedV2(s, <<>>, TRUE))
-  IN \A p \in 1..Len(PrefixSets) : SeqSet(ExpectedV2(s, PrefixSets[p], TRUE)) \subseteq all
+\* everything the specification says about one server, evaluated once per state
+CaseOf(s) ==
+  [server  |-> s,
+   foreach |-> ForEachRef(s),
+   exp_v0  |-> ExpectedV0(s),
+   v2      |-> [p \in 1..Len(PrefixSets) |-> [prefixes |-> PrefixSets[p], exp |-> ExpectedV2(s, PrefixSets[p], TRUE)]]]
 
-Emit == PrintT(<<"CASE", ToJson([server  |-> Server,
-                                  foreach |-> ForEachRef(Server),
-                                  exp_v0  |-> ExpectedV0(Server),
-                                  v2      |-> [p \in 1..Len(PrefixSets) |->
-                                                 [prefixes |-> PrefixSets[p],
-                                                  exp |-> ExpectedV2(Server, PrefixSets[p], TRUE)]]])>>)
+Names(refs) == {refs[i].name : i \in 1..Len(refs)}
+\* design-level statements about the specification itself, on every enumerated server:
+\* a reference is reported once
+NamesDistinct(c) == Cardinality(Names(c.exp_v0)) = Len(c.exp_v0)
+\* a v2 listing without prefixes names exactly the v0 references, plus possibly an unborn HEAD
+V2CoversV0(c) ==
+  LET b == c.v2[1].exp IN
+  Names(c.exp_v0) = Names(b) \ {b[i].name : i \in {j \in 1..Len(b) : b[j].k = "Unborn"}}
+\* apart from the symbolic-ref information v0 cannot carry, both protocols describe the same objects
+SameObjects(c) ==
+  LET b == c.v2[1].exp
+      Obj(r) == <<r.name, r.tag, r.object>>
+  IN {Obj(c.exp_v0[i]) : i \in 1..Len(c.exp_v0)} = {Obj(b[i]) : i \in {j \in 1..Len(b) : b[j].k # "Unborn"}}
+\* prefixes only ever remove lines
+PrefixFilters(c) == \A p \in 1..Len(PrefixSets) : SeqSet(c.v2[p].exp) \subseteq SeqSet(c.v2[1].exp)
+
+Emit ==
+  done = 2 =>
+  LET c == CaseOf(Server) IN
+  /\ Assert(NamesDistinct(c), "NamesDistinct")
+  /\ Assert(V2CoversV0(c), "V2CoversV0")
+  /\ Assert(SameObjects(c), "SameObjects")
+  /\ Assert(PrefixFilters(c), "PrefixFilters")
+  /\ PrintT(<<"CASE", ToJson(c)>>)
 =============================================================================
